@@ -118,6 +118,7 @@ type Vaxis struct {
 	cursorLast       cursorState
 	closed           bool
 	closeMu          sync.Mutex // guards closed
+	suspendMu        sync.Mutex // serialises Suspend and Resume, guards suspended
 	suspended        bool
 	refresh          bool
 	kittyFlags       int
@@ -1434,6 +1435,12 @@ func (vx *Vaxis) Suspend() error {
 	// 2. Send a DA1 query so there is data on the reader, breaking the read
 	//    loop
 	// 3. Confirm we have closed
+	//
+	// Suspend can run concurrently with itself and with Resume: the
+	// application calls it, and so does Close from the kill-signal handler
+	// and from the panic handler of the input goroutine. One at a time
+	vx.suspendMu.Lock()
+	defer vx.suspendMu.Unlock()
 	if vx.suspended {
 		// Already suspended (e.g. Close while suspended): the parser is
 		// stopped and the terminal restored, nothing to wait for
@@ -1533,6 +1540,8 @@ func (vx *Vaxis) openTty(tgts []*os.File) error {
 // and reenables input parsing. Upon resuming, a Resize event will be delivered.
 // It is entirely possible the terminal was resized while suspended.
 func (vx *Vaxis) Resume() error {
+	vx.suspendMu.Lock()
+	defer vx.suspendMu.Unlock()
 	var tgts []*os.File
 	if vx.withConsole == nil {
 		tgts = []*os.File{os.Stderr, os.Stdout, os.Stdin}
